@@ -332,6 +332,16 @@ pub fn gen(prop: &str, seed: u64, index: u64, _tier: Tier) -> Case {
     if cwd_differs && base.is_empty() {
         project.add_dir("a");
     }
+    // state kept from an earlier run in the same process must not matter: now and then the first
+    // invocation is first run on a tree in which some sources do not exist yet
+    let mut params = BTreeMap::new();
+    if rng.chance(1, 8) {
+        let a = analyze(&project);
+        let hide: Vec<String> = a.sources.iter().filter(|_| rng.chance(1, 3)).map(|s| s.path.clone()).collect();
+        if !hide.is_empty() {
+            params.insert("warmup_without".to_string(), serde_json::to_string(&hide).unwrap());
+        }
+    }
     Case {
         property: prop.to_string(),
         variant: if clean { "clean".into() } else { "build".into() },
@@ -339,13 +349,37 @@ pub fn gen(prop: &str, seed: u64, index: u64, _tier: Tier) -> Case {
         index,
         project,
         ops,
-        params: BTreeMap::new(),
+        params,
     }
 }
 
 pub fn run(case: &Case, ctx: &mut Ctx) -> CaseOutcome {
     let mut out = CaseOutcome::default();
     let mut rec = case.clone();
+    if let Some(hide) = case.params.get("warmup_without").and_then(|s| serde_json::from_str::<Vec<String>>(s).ok()) {
+        if let Some(Op::Run { cfg, sched, .. }) = case.ops.first() {
+            let a = analyze(&case.project);
+            let mut v = case.project.clone();
+            for h in &hide {
+                if let Some(i) = a.by_path.get(h) {
+                    v.remove(h);
+                    v.add_file(&a.sources[*i].out, B::s("written by hand before the source existed\n"));
+                }
+            }
+            tree::plant(&ctx.env.root, &v);
+            ctx.env.clear_run_vlog();
+            let mut ws = sched.clone();
+            ws.script = None;
+            ws.strict = false;
+            let warm = ctx.env.run(cfg, &ws, false);
+            ctx.stats.count("config.warm_up_run_on_earlier_tree");
+            if warm.poisoned {
+                out.poisoned = true;
+                out.recorded = Some(case.clone());
+                return out;
+            }
+        }
+    }
     let h = exec(case, ctx, &mut rec);
     out.poisoned = h.poisoned;
     if let Some(d) = &h.diverged {
